@@ -52,15 +52,16 @@ let mk_rel r ~(fresh : unit -> int) (s : rspec) : rel =
 
 type prof12 = { v16 : bool; dead : int; size : int (* 0 tiny, 1 normal *) }
 
-let build_dir12 r (p : prof12) ~(dir_oid : int) ~(tiny : bool) : dbdir * rel list =
+let build_dir12 r ?users (p : prof12) ~(dir_oid : int) ~(tiny : bool) : dbdir * rel list =
   let used = Hashtbl.create 16 in
   let fresh () = fresh_id r used in
   let rows () = pick r [| 1; 2; 2; 3; 4 |] in
   let specs =
     if tiny then [ { rname = "tpl_t"; rkind = ch 'r'; rcols = 5; rrows = 1; rfile = true; rstorage = true } ]
     else begin
-      let users = pick r user_names in
-      let nuser = min (List.length users) (if p.size = 0 then 2 else rrange r 2 3) in
+      let (users, nuser) = match users with
+        | Some l -> (shuffle r l, List.length l)
+        | None -> let u = pick r user_names in (u, min (List.length u) (if p.size = 0 then 2 else rrange r 2 3)) in
       let base = List.mapi (fun i n -> { rname = n; rkind = ch 'r'; rcols = (if i = 0 then 5 else rrange r 1 4); rrows = rows (); rfile = true; rstorage = true })
           (take nuser users) in
       let opt ?(one_in = 2) s = if chance r 1 one_in then [ s ] else [] in
@@ -128,16 +129,16 @@ type world12 = {
   hint : int; dbs : (int * string * bool) list; (* oid, name, template *) rels : (int * rel list) list }
 
 let db_sets = [| [ "app"; "App"; "APP" ]; [ "postgres"; "shop_db" ]; [ "mytemplate"; "Template1" ]; [ "x" ]; [ "App"; "postgres" ]; [ "postgres" ] |]
-let build_world r ?(ndb = 2) ?(size = 1) () : world12 =
+let build_world r ?(ndb = 2) ?(size = 1) ?dbset ?users () : world12 =
   let (ver, hint) = pick r versions in
   let v16 = if hint >= 16 then true else if hint >= 12 then false else rbool r in
   let p = { v16; dead = rint r 2; size } in
   let used = Hashtbl.create 8 in
   let fresh () = fresh_id r used in
-  let names = take ndb (pick r db_sets) in
+  let names = match dbset with Some l -> l | None -> take ndb (pick r db_sets) in
   let tpls = if chance r 2 3 then take (rrange r 1 2) (shuffle r [ "template0"; "template1"; "templateX" ]) else [] in
   let dbs = shuffle r (List.map (fun n -> (fresh (), n, false)) names @ List.map (fun n -> (fresh (), n, true)) tpls) in
-  let built = List.map (fun (oid, _, tpl) -> let (d, rels) = build_dir12 r p ~dir_oid:oid ~tiny:tpl in (oid, d, rels)) dbs in
+  let built = List.map (fun (oid, _, tpl) -> let (d, rels) = build_dir12 r ?users p ~dir_oid:oid ~tiny:tpl in (oid, d, rels)) dbs in
   let live_d = List.map (fun (oid, n, _) -> VRow (mk_vhdr r ~alive:true, { dr_oid = zi oid; dr_name = bs n })) dbs in
   let extra = if p.dead = 0 then [] else
       [ VRow (mk_vhdr r ~alive:false, { dr_oid = zi (fresh ()); dr_name = bs "dropped_db" }); stub r ]
@@ -189,7 +190,7 @@ let emit_dump ~tag (w : world12) (opts : options0 option) =
 
 let emit_remote ~tag (w : world12) (ks : call list) =
   let fs = fs_of w.files in
-  let s = c_answers (List.map (expected_answer w.acl w.creds w.ctl) ks) in
+  let s = c_answers (List.map (x_answer w.acl w.creds w.ctl) ks) in
   let m = c_answers (m_run_calls fs (m_NewRemoteClient fs) ks) in
   if s <> m then note "%s: client model differs from the specification" tag;
   emit ~fn:"C12Remote" ~tag ~s ~m (string_of_int (List.length ks) :: List.map call_arg ks @ files_args w.files)
@@ -239,14 +240,37 @@ let stratum_listings r (w : world12) =
 let stratum_names r (w : world12) =
   let (oid, n, _) = any_db r w in
   let tnames = List.sort_uniq compare (List.map (fun (x : rel) -> x.name) (rels_of w oid)) in
-  let tn = pick r (Array.of_list tnames) in
-  let dbcalls = List.concat_map (fun (_, dn, _) -> List.map (fun v -> KDatabase (bs v)) (take 3 (name_variants r dn))) w.dbs in
-  let tcalls = List.concat_map (fun t -> List.map (fun v -> KTable (zi oid, bs v)) (take 4 (name_variants r t))) (take 4 (shuffle r tnames)) in
+  (* prefer a name that has a sibling differing only in case *)
+  let has_sibling t = List.exists (fun u -> u <> t && String.lowercase_ascii u = String.lowercase_ascii t) tnames in
+  let tn = match List.filter has_sibling tnames with [] -> pick r (Array.of_list tnames) | l -> pick r (Array.of_list l) in
+  let dbcalls = List.concat_map (fun (_, dn, _) -> List.map (fun v -> KDatabase (bs v)) (take 4 (name_variants r dn))) w.dbs in
+  let tcalls = List.concat_map (fun t -> List.map (fun v -> KTable (zi oid, bs v)) (take 4 (name_variants r t)))
+      (take 5 (List.filter has_sibling tnames @ shuffle r (List.filter (fun t -> not (has_sibling t)) tnames))) in
   emit_remote ~tag:"names-database" w (dbcalls @ [ KDatabase (bs "nosuch"); KDatabase [] ]);
   emit_remote ~tag:"names-table" w (tcalls @ [ KTable (zi oid, bs "nosuch"); KTable (zi 4242, bs tn) ]);
   emit_remote ~tag:"names-query" w
-    (List.map (fun (dn, t) -> KQueryByName (bs dn, bs t, None))
-       [ (n, tn); (swap n, tn); (n, swap tn); (n, String.uppercase_ascii tn); (n ^ "x", tn); (n, "nosuch") ])
+    (List.concat_map (fun (_, dn, tpl) -> if tpl then [] else [ KQueryByName (bs dn, bs tn, None); KDumpDatabaseByName (bs dn); KTablesByName (bs dn) ]) w.dbs
+     @ List.map (fun (dn, t) -> KQueryByName (bs dn, bs t, Some { q_columns = []; q_limit = zi 2 }))
+       [ (n, tn); (swap n, tn); (n, swap tn); (n, String.uppercase_ascii tn); (n, String.lowercase_ascii tn); (n ^ "x", tn); (n, "nosuch") ]);
+  emit_remote ~tag:"names-exec" w
+    (List.map (fun a -> KExec (List.map bs a))
+       [ [ "columns"; n; tn ]; [ "columns"; swap n; String.uppercase_ascii tn ]; [ "query"; n; String.lowercase_ascii tn ]; [ "tables"; String.uppercase_ascii n ];
+         [ "dump"; String.lowercase_ascii n ] ])
+
+(* a database of pg_database whose directory is missing, or whose pg_class is an empty file: no dump lists it *)
+let stratum_missing_dir r ~(gone : bool) (w : world12) =
+  match real_dbs w with
+  | (victim, _, _) :: _ :: _ ->
+    let prefix = Printf.sprintf "base/%d/" victim in
+    let starts f = String.length f.rel >= String.length prefix && String.sub f.rel 0 (String.length prefix) = prefix in
+    let (tag, files) =
+      if gone then ("missing-directory", List.filter (fun f -> not (starts f)) w.files)
+      else ("empty-pg-class-file", List.map (fun f -> if f.rel = prefix ^ "1259" then { f with data = [] } else f) w.files) in
+    let acl = { w.acl with a_dbs = List.filter (fun (d : adb) -> iz d.d_oid <> victim) w.acl.a_dbs } in
+    let w' = { w with files; acl } in
+    emit_dump ~tag w' None;
+    emit_remote ~tag w' [ KDumpAll; KExec [ bs "dump" ] ]
+  | _ -> ()
 
 let stratum_query r (w : world12) =
   let (oid, _, _) = any_db r w in
@@ -367,9 +391,13 @@ let gen seed n =
     let r = rng_for seed k in
     let blk = k / 10 in
     match k mod 10 with
-    | 0 -> stratum_paths r (build_world r ~ndb:(rrange r 1 3) ())
+    | 0 ->
+      if blk mod 2 = 0 then stratum_paths r (build_world r ~ndb:(rrange r 1 3) ())
+      else begin
+        let w = build_world r ~dbset:(take (rrange r 2 3) (shuffle r [ "postgres"; "shop_db"; "App"; "x" ])) ~size:0 () in
+        stratum_paths r w; stratum_missing_dir r ~gone:((blk / 2) mod 2 = 0) w end
     | 1 -> stratum_listings r (build_world r ())
-    | 2 -> stratum_names r (build_world r ~ndb:(rrange r 2 3) ())
+    | 2 -> stratum_names r (build_world r ~dbset:(take (rrange r 2 3) (shuffle r [ "app"; "App"; "APP" ])) ~users:[ "users"; "Users"; "USERS" ] ~size:0 ())
     | 3 -> stratum_query r (build_world r ~ndb:1 ())
     | 4 -> stratum_dump r (build_world r ())
     | 5 -> let w = build_world r ~ndb:(rrange r 1 2) ~size:0 () in stratum_exec r w
